@@ -19,7 +19,7 @@ Dumps are compared without line numbers (runtime/astdump.py, all public attribut
 """
 import re
 
-from runtime.common import use_repo, spec_examples, alpha, SIGMA12, pool_map, merge
+from runtime.common import use_repo, spec_examples, SIGMA12, pool_map, merge
 from runtime.astdump import dump_children, diff, brief
 from runtime.mtutil import reset_state, BLOCKS, keep_smallest
 
